@@ -1,4 +1,4 @@
-"""Extra catalogue rule used by U-JOIN.
+"""Extra catalogue rules used by U-JOIN (R16, R17).
 
 R16 async-block outline:  `async move { B }` / `async { B }`  (an async *block expression*, never `async fn`)
                           ->  `vx_async_block()`
@@ -12,7 +12,7 @@ The unit must provide `fn vx_async_block<T>() -> VxFuture<T>` (external_body, no
 """
 from ..lexer import lex, sig
 from ..extract import match_close
-from ..rewrite import apply_edits
+from ..rewrite import apply_edits, _stmt_for_header
 
 
 def r16_async_block(text, log):
@@ -38,4 +38,25 @@ def r16_async_block(text, log):
     return apply_edits(text, edits)
 
 
-RULES = {"R16": r16_async_block}
+def r17_name_for_iter(text, log):
+    """`for PAT in EXPR {`  ->  `for PAT in vx_it: EXPR {`
+    Verus' own syntax for naming the ghost wrapper of the loop iterator, so that an invariant can mention how many items have
+    been taken (`vx_it.index@`).  A pure annotation: the executable loop is unchanged (the name exists only in ghost code)."""
+    st = sig(lex(text))
+    edits = []
+    n = 0
+    for i, t in enumerate(st):
+        if t.kind == "ident" and t.text == "for" and i + 1 < len(st) and st[i + 1].text != "<":
+            in_idx, b = _stmt_for_header(st, i)
+            if in_idx is None:
+                continue
+            if in_idx + 2 < len(st) and st[in_idx + 2].text == ":" and st[in_idx + 3].text != ":":
+                continue  # already named
+            edits.append((st[in_idx].end, st[in_idx].end, " vx_it:"))
+            n += 1
+    if n:
+        log["R17 name-for-iterator"] = log.get("R17 name-for-iterator", 0) + n
+    return apply_edits(text, edits)
+
+
+RULES = {"R16": r16_async_block, "R17": r17_name_for_iter}
